@@ -126,7 +126,7 @@ func init() {
 		"math.IsInf":           extIsInf,
 		"math.NaN":             func(fr *frame, args []value) value { return math.NaN() },
 		"math.Inf":             func(fr *frame, args []value) value { return math.Inf(int(asInt64(args[0]))) },
-		"math.Abs":             mathUF1("Abs", math.Abs),
+		"math.Abs":             mathAbs,
 		"math.Floor":           mathRound("RTN", math.Floor),
 		"math.Ceil":            mathRound("RTP", math.Ceil),
 		"math.Trunc":           mathRound("RTZ", math.Trunc),
@@ -463,6 +463,20 @@ func mathRound(mode string, f func(float64) float64) externalFn {
 		x := fr.i.x
 		return x.lower(x.tt.FRound(mode, x.lift(args[0])), types.Float64)
 	}
+}
+
+// math.Abs precisely: +0 for either zero, -x for negative x, x otherwise
+// (NaN stays NaN).
+func mathAbs(fr *frame, args []value) value {
+	if c, ok := args[0].(float64); ok {
+		return math.Abs(c)
+	}
+	x := fr.i.x
+	tt := x.tt
+	a := x.lift(args[0])
+	zero := tt.FP(64, 0)
+	r := tt.Ite(tt.FCmp("fp.eq", a, zero), zero, tt.Ite(tt.FCmp("fp.lt", a, zero), tt.FNeg(a), a))
+	return x.lower(r, types.Float64)
 }
 
 func mathUF2(name string, f func(a, b float64) float64) externalFn {
